@@ -2,7 +2,19 @@
 #include <cstdio>
 #include <cstdlib>
 
+#ifdef TEAKRA_VERIF
+// Verification hook: a failed ASSERT/UNREACHABLE becomes an exception the harness can classify.
+struct TeakraVerifAssert {
+    const char* expression;
+    const char* file;
+    int line;
+};
+#endif
+
 [[noreturn]] inline void Assert(const char* expression, const char* file, int line) {
+#ifdef TEAKRA_VERIF
+    throw TeakraVerifAssert{expression, file, line};
+#endif
     std::fprintf(stderr, "Assertion '%s' failed, file '%s' line '%d'.", expression, file, line);
     std::abort();
 }
